@@ -151,11 +151,14 @@ def _work(task):
     if both and final == "proved":
         # thorough tier: the other solver has to agree
         if by == "z3":
-            st2, dt2, md2, why2 = run_cvc5(cvc5_ms)
+            # confirmation by the other solver: bounded (its `unknown` leaves the verdict with z3 alone, recorded as such)
+            st2, dt2, md2, why2 = run_cvc5(min(cvc5_ms, 10000))
             res["backends"].append({"solver": "cvc5", "status": st2, "time_s": round(dt2, 4), "why": why2})
         else:
             st2 = "proved"
-            stz, dtz, mdz, whyz = run_z3(((0, z3_ms),))
+            # cvc5 proved it after z3 gave up on its short slice: z3 gets one more bounded attempt to confirm; its
+            # `unknown` leaves the verdict with cvc5 alone (recorded as such), only a z3 model makes it a disagreement
+            stz, dtz, mdz, whyz = run_z3(((0, min(z3_ms, 15000)),))
             res["backends"].append({"solver": "z3", "status": stz, "time_s": round(dtz, 4), "why": whyz})
             if stz == "refuted":
                 st2 = "refuted"
@@ -200,7 +203,7 @@ def _limit_memory():
         pass
 
 
-def robust_map(fn, items, procs, on_crash, limit_memory=True):
+def robust_map(fn, items, procs, on_crash, limit_memory=True, second_chance=None):
     """pool.map that survives a dying worker: the items that were in flight are re-run one by one in a fresh process;
     an item whose process dies again gets on_crash(item).  Never hangs on a lost task."""
     from concurrent.futures import ProcessPoolExecutor
@@ -236,9 +239,41 @@ def robust_map(fn, items, procs, on_crash, limit_memory=True):
             try:
                 results[i] = f.result()
             except BrokenProcessPool:
-                results[i] = on_crash(items[i])
+                results[i] = None
+                if second_chance is not None:
+                    ex2 = ProcessPoolExecutor(max_workers=1, mp_context=ctx, initializer=init)
+                    try:
+                        results[i] = ex2.submit(second_chance, items[i]).result()
+                    except BrokenProcessPool:
+                        results[i] = None
+                    ex2.shutdown(wait=True)
+                if results[i] is None:
+                    results[i] = on_crash(items[i])
             ex.shutdown(wait=True)
     return results
+
+
+def _work_safe(task):
+    """second chance for a query whose worker process died (z3 ran out of memory): cvc5 with its full budget, then z3 for
+    a short slice only"""
+    name, text, z3_ms, cvc5_ms, both = task
+    res = {"name": name, "backends": [{"solver": "z3", "status": "unknown", "time_s": 0.0, "why": "solver process died (memory limit); retried in safe mode"}]}
+    try:
+        st2, dt2, md2, why2 = _cvc5_check(text, cvc5_ms, produce_model=False)
+    except Exception as e:
+        st2, dt2, md2, why2 = "unknown", 0.0, None, "cvc5 error: %r" % (e,)
+    res["backends"].append({"solver": "cvc5", "status": st2, "time_s": round(dt2, 4), "why": why2})
+    final, by, model = ("proved", "cvc5", None) if st2 == "proved" else ("undecided", "-", None)
+    if final != "proved":
+        try:
+            st, dt, md, why = _z3_check(text, z3_ms, attempts=((0, min(2000, z3_ms)),))
+        except Exception as e:
+            st, dt, md, why = "unknown", 0.0, None, "z3 error: %r" % (e,)
+        res["backends"].append({"solver": "z3", "status": st, "time_s": round(dt, 4), "why": why})
+        if st in ("proved", "refuted"):
+            final, by, model = st, "z3", md
+    res.update({"status": final, "by": by, "model": model})
+    return res
 
 
 def _crashed(task):
@@ -252,7 +287,7 @@ def run_tasks(tasks, procs=None):
     procs = procs or min(16, len(tasks))
     if procs == 1:
         return [_work(t) for t in tasks]
-    return robust_map(_work, tasks, procs, _crashed)
+    return robust_map(_work, tasks, procs, _crashed, second_chance=_work_safe)
 
 
 def check_text(name, text, z3_ms=10000, cvc5_ms=20000, both=False):
